@@ -4,6 +4,9 @@ import json, os
 here = os.path.dirname(os.path.dirname(os.path.abspath(__file__)))
 TECH = "deterministic simulation with fault injection"
 claimed = {
+ "C05": ("exploration", "random trees with hostile names and full metadata are packed and unpacked through the real Tar/UnTar, through the five-stage chunked pipeline (Tar -> pipe -> ChunkStream -> index -> UnTarIndex) under the seeded scheduler with a slow store, through GNU-tar output and tar-stream input, under both digests; oracle: metadata+content snapshot equality, byte-identical repeated packing, chunked bytes == direct archive",
+         "sampling; metadata fidelity is input coverage (stated partial scope), the simulated part is the chunked pipeline; mtree output, fifos and sockets not exercised; CLI flag handling mirrored, not executed",
+         TECH + " (seeded scheduler over the chunked tar pipeline, snapshot oracle)"),
  "C04": ("fault_enumeration", "generated indexes are written with the real encoder, checked against an independent caibx parser, read back through a fragmenting stream, the local index store and the HTTP index client/server; then every strict prefix (torn write / cut connection), swapped offsets, an over-long chunk and a flipped digest flag must be rejected; casync-made fixtures must re-encode byte-identically",
          "exhaustive over prefixes of each generated file (stream mode; <= 600 evenly spaced prefixes per file through stores); the round-trip half is input coverage, not simulation (stated partial scope); console and S3 index stores not exercised",
          TECH + " (stream/stored-index fault enumeration, independent parser as oracle)"),
